@@ -240,10 +240,42 @@ type loopInfo struct {
 	ord  int
 	spec *LoopSpec
 	pos  string
+	name string
+}
+
+func (li *loopInfo) label() string {
+	if li.name != "" {
+		return li.name
+	}
+	return fmt.Sprintf("loop%d", li.ord)
 }
 
 func (fc *FuncCtx) loopSpecFor(s ast.Stmt, st *St) (*loopInfo, bool) {
-	if fc.inlineDep > 0 {
+	if _, own := fc.loopOrd[s]; !own {
+		// a loop of a callee inlined at a call site: its invariant comes from the caller's contract
+		if fc.inlineSite != "" && fc.inlineRef != nil {
+			n := 0
+			found := -1
+			ast.Inspect(fc.inlineRef.Decl.Body, func(x ast.Node) bool {
+				switch x.(type) {
+				case *ast.ForStmt, *ast.RangeStmt:
+					if x == ast.Node(s) {
+						found = n
+					}
+					n++
+				}
+				return true
+			})
+			if found >= 0 {
+				key := fmt.Sprintf("%s/%d", fc.inlineSite, found)
+				if sp := fc.Con.CallLoops[key]; sp != nil {
+					return &loopInfo{ord: 1000 + found, spec: sp, pos: fc.pos(s), name: "callsite." + fc.inlineSite + ".loop" + fmt.Sprint(found)}, true
+				}
+				fc.oblig(st, "callsite."+fc.inlineSite+".loop"+fmt.Sprint(found)+".missing-invariant", False, "a loop of a callee inlined at a call site needs a call-site invariant", fc.pos(s), nil)
+				st.assume(False)
+				return nil, false
+			}
+		}
 		fc.unsupported(st, "loop inside an inlined function", fc.pos(s))
 		return nil, false
 	}
@@ -263,7 +295,7 @@ func (fc *FuncCtx) assertInvs(li *loopInfo, st *St, phase string, extraBound map
 		for k, v := range extraBound {
 			env.bound[k] = v
 		}
-		fc.oblig(st, fmt.Sprintf("loop%d.%s.%s", li.ord, inv.Name, phase), fc.spec(inv.Expr, env), "invariant "+inv.Src, li.pos, inv.Props)
+		fc.oblig(st, fmt.Sprintf("%s.%s.%s", li.label(), inv.Name, phase), fc.spec(inv.Expr, env), "invariant "+inv.Src, li.pos, inv.Props)
 	}
 }
 
@@ -324,7 +356,7 @@ func (fc *FuncCtx) execFor(x *ast.ForStmt, st *St, c ctl) {
 		fc.assertInvs(li, s, "preserve", nil)
 		if li.spec.Decreases != nil {
 			v1 := fc.spec(li.spec.Decreases, fc.newEnv(s))
-			fc.oblig(s, fmt.Sprintf("loop%d.decreases", li.ord), And(Le(IntLit(0), v0), Lt(v1, v0)), "variant "+li.spec.DecSrc+" is bounded below and strictly decreases", li.pos, nil)
+			fc.oblig(s, li.label()+".decreases", And(Le(IntLit(0), v0), Lt(v1, v0)), "variant "+li.spec.DecSrc+" is bounded below and strictly decreases", li.pos, nil)
 		}
 	}
 	body := head.clone()
